@@ -184,6 +184,7 @@ impl Linter {
 
         let mut expanded_paths = Vec::new();
         let mut expanded_path_to_linted_dir = AHashMap::default();
+        let mut seen_files = AHashSet::new();
 
         for path in paths {
             let linted_dir = LintedDir::new(path.display().to_string());
@@ -199,6 +200,12 @@ impl Linter {
             expanded_path_to_linted_dir.reserve(paths.len());
 
             for path in paths {
+                // The same file may be reached through several arguments: process it once.
+                let identity =
+                    std::fs::canonicalize(&path).unwrap_or_else(|_| PathBuf::from(&path));
+                if !seen_files.insert(identity) {
+                    continue;
+                }
                 expanded_paths.push(path.clone());
                 expanded_path_to_linted_dir.insert(path, key);
             }
